@@ -38,7 +38,7 @@ def build(policy):
     tagit(la.create_definition(name="ab"), "w")
     la.create_definition()
     tagit(lA.create_definition(name="a"), "v").create_port(name="a", pins=1)
-    for nm_, kv in (("a", "v"), ("A", "v"), ("ab", "w"), (None, "v")):
+    for nm_, kv in (("a", "v"), ("A", "v"), ("ab", "w"), (None, "v"), ("r[0]", "w"), ("r0", "v")):
         p = da.create_port(name=nm_, pins=2 if nm_ == "ab" else 1)
         c = da.create_cable(name=nm_, wires=2 if nm_ == "ab" else 1)
         x = da.create_child(name=nm_, reference=leaf)
@@ -195,12 +195,12 @@ def worker(case):
                         continue
                 vals = sorted(set(value(x, key, hier) for x in U))
                 pats = set()
-                for v in vals[:6]:
+                for v in vals[:9]:
                     if v:
                         pats |= {v, v.swapcase(), v[:1] + "*", v[:-1] + "?", "?" * len(v)}
                 pats |= {"zz", "*", "a*", "A*"}
                 single = sorted(pats)
-                multi = [("a", "a*"), ("a*", "a"), ("a", "A"), ("a", "a"), ("zz", "a")]
+                multi = [("a", "a*"), ("a*", "a"), ("a", "A"), ("a", "a"), ("zz", "a"), ("r[0]", "a*"), ("a*", "r[0]"), ("r[0]", "r0")]
                 if vals and vals[-1]:
                     multi.append((vals[-1], vals[-1][:1] + "*"))
                 regs = sorted(set([re.escape(v) for v in vals[:4] if v] + ["a.*", "[aA]b?", ".*", "("]))
